@@ -325,7 +325,9 @@ class SSH_Socket(ReadBuf, WriteBuf):
 
     def close(self) -> None:
         self.__cleanup()
-        self.reset()
+        # Both buffers start empty on the next connection: self.reset() alone resolves to ReadBuf.reset(), so a message that was begun and abandoned (an exception between write_byte() and send_packet()) would be sent in front of the next connection's first packet.
+        ReadBuf.reset(self)
+        WriteBuf.reset(self)
         self.__state = 0
         self.__header = []
         self.__banner = None
